@@ -18,7 +18,11 @@ META = {
              "that it is NaN exactly outside the support, and that the decision table GradOutcome is total and refuses where no "
              "analytic gradient exists. The harness calls gradient() on the real objects for every emitted case, parameter-passing "
              "way, Gaussian input form and sparse threshold, with and without enable_FD(), on identity / mapped / "
-             "gradient-supplying geometries and on conditional distributions, and compares with the exact expected vector."),
+             "gradient-supplying / expansion geometries and on conditional distributions, and compares with the exact expected vector. "
+             "Likelihood, posterior and multiple-likelihood gradients are replayed again through every model kind on expansion domain "
+             "geometries (StepExpansion, KLExpansion with all / truncated modes: subclasses of an identity-like geometry with a "
+             "non-identity linear par2fun u = E p): refused, or equal to E^T gradient_fun (invariant ExpansionChain); Gaussian "
+             "matrix inputs again at covariance magnitudes 4^-30, 4^30 (invariant ScalingLaw: gradient' = gradient / 2^e)."),
     "note": ("A raised exception is accepted wherever a vector is specified (the property only constrains returned vectors) and is "
              "reported as an observation; FD results are compared at forward-difference accuracy; PDE-based models, "
              "DistributionGallery targets are not modelled; user-defined distributions: pass-through of gradient_func, refusal "
@@ -134,7 +138,13 @@ def _geometries():
     def mapped(n):
         return cuqi.geometry.MappedGeometry(cuqi.geometry.Continuous1D(n), map=lambda v: v ** 3)
 
-    return mapped, (lambda n: CubeGeometry(n))
+    def expansion(n):
+        # a SUBCLASS of the identity-like Continuous1D whose par2fun is not the identity and that offers no `gradient`
+        if n >= 2:
+            return cuqi.geometry.KLExpansion(np.linspace(0, 1, n), decay_rate=1.5, normalizer=2.0)
+        return cuqi.geometry.StepExpansion(np.array([0.0, 1.0]), n_steps=1)
+
+    return mapped, (lambda n: CubeGeometry(n)), expansion
 
 
 def check_family(ctx, table, case, extras):
@@ -153,8 +163,8 @@ def check_family(ctx, table, case, extras):
     if not extras:
         return
     # geometry kinds
-    mapped, withgrad = _geometries()
-    for gname, gmk in (("mapped", mapped), ("withgradient", withgrad)):
+    mapped, withgrad, expansion = _geometries()
+    for gname, gmk in (("mapped", mapped), ("withgradient", withgrad), ("expansion", expansion)):
         if mrf:
             if case["mrf"]["pd"] != 1:
                 continue
@@ -241,10 +251,19 @@ def check_gaussian(ctx, table, case, extras):
                         full_sparse = shape == "sparse" and not fc.is_diag(data)
                         _grad_checks(ctx, table, case, "Gaussian", way, d, builder, x, gexp, extra=extra,
                                      fd_ok=(thr is None and how != "list" and not full_sparse))
+                        if mway == "ndarray" and shape in ("diag", "dense", "sparse"):
+                            # ScalingLaw of the spec: the same input at the magnitudes a = 4^e of the covariance; gradient' = gradient / 2^e
+                            for sc in fc.scaled_instances(case):
+                                pseudo = dict(case, logpdf=sc["logpdf"])
+                                _grad_checks(ctx, table, pseudo, "Gaussian", way, d,
+                                             (lambda: cuqi.distribution.Gaussian(np.array(mean), **{form: fc.gaussian_param(
+                                                 shape, data, how, pow2=sc["form_pow2"][form])})),
+                                             fc.scaled_point(mean, x, sc), gexp * math.ldexp(1.0, sc["grad_pow2"]),
+                                             extra="%s/scale=4^%d" % (extra, sc["e"]), fd_ok=False)
     if extras:
-        mapped, withgrad = _geometries()
+        mapped, withgrad, expansion = _geometries()
         cov = fc.gaussian_param("dense", [i for i in case["inputs"] if i["form"] == "cov" and i["shape"] == "dense"][0]["data"])
-        for gname, gmk in (("mapped", mapped), ("withgradient", withgrad)):
+        for gname, gmk in (("mapped", mapped), ("withgradient", withgrad), ("expansion", expansion)):
             _grad_checks(ctx, table, case, "Gaussian", "cov:dense:ndarray+mean:ndarray", d,
                          (lambda: cuqi.distribution.Gaussian(np.array(mean), cov=cov, geometry=gmk(d))), x, gexp,
                          extra="/geom=" + gname, geom=gname)
@@ -271,7 +290,9 @@ def check_gaussbig(ctx, table, case):
 
 
 # ------------------------------------------------------------------ likelihoods, posteriors, multiple likelihoods
-def _model(case):
+def _model(case, geom=None, R=None):
+    """the model of a `lik` case.  geom / R: the model is given on the FUNCTION values u of the expansion geometry `geom`
+    (u = E p) as Ff(u) = F(R u) with R E = I, so that the parameter-to-output map is the spec's F."""
     import cuqi
     A = np.array(case["A"], dtype=float)
     B = np.array(case["B"], dtype=float)
@@ -279,6 +300,18 @@ def _model(case):
     mk = case["mk"]
     F = lambda x: A @ (x * x) + B @ x          # noqa: E731
     J = lambda x: 2 * A * x[None, :] + B       # noqa: E731
+    if geom is not None:
+        Rm = np.asarray(R, dtype=float)
+        if mk == "matrix":
+            return cuqi.model.LinearModel(A @ Rm, domain_geometry=geom, range_geometry=m)
+        if mk == "funadj":
+            return cuqi.model.LinearModel(lambda x: A @ (Rm @ x), lambda y: Rm.T @ (A.T @ y), range_geometry=m, domain_geometry=geom)
+        if mk == "jacobian":
+            return cuqi.model.Model(lambda x: F(Rm @ x), m, geom, jacobian=lambda x: J(Rm @ x) @ Rm)
+        if mk == "gradient":
+            return cuqi.model.Model(lambda x: F(Rm @ x), m, geom, gradient=lambda direction, wrt: (direction @ J(Rm @ wrt)) @ Rm)
+        from cuqiverif.core import MachineryError
+        raise MachineryError("model kind %r is not realised on an expansion geometry" % mk)
     if mk == "matrix":
         return cuqi.model.LinearModel(A)
     if mk == "funadj":
@@ -297,12 +330,50 @@ def _model(case):
     return cuqi.model.LinearModel(A, domain_geometry=SquareGeometry(n), range_geometry=m)
 
 
-def _jac_model(case):
+def _jac_model(case, geom=None, R=None):
     import cuqi
     A = np.array(case["A"], dtype=float)
     B = np.array(case["B"], dtype=float)
     m, n = A.shape
+    if geom is not None:
+        Rm = np.asarray(R, dtype=float)
+        return cuqi.model.Model(lambda x: A @ ((Rm @ x) * (Rm @ x)) + B @ (Rm @ x), m, geom,           # (argument name = variable name)
+                                jacobian=lambda x: (2 * A * (Rm @ x)[None, :] + B) @ Rm)
     return cuqi.model.Model(lambda x: A @ (x * x) + B @ x, m, n, jacobian=lambda x: 2 * A * x[None, :] + B)
+
+
+def _expansion_geometry(kind, n):
+    """real expansion geometries with n parameters: subclasses of Continuous1D, linear non-identity par2fun, no `gradient`"""
+    import cuqi
+    if kind == "step":
+        return cuqi.geometry.StepExpansion(np.arange(2 * n, dtype=float), n_steps=n)
+    if kind == "kl_full":
+        return cuqi.geometry.KLExpansion(np.linspace(0, 1, n), decay_rate=1.5, normalizer=2.0)
+    if kind == "kl_trunc":
+        return cuqi.geometry.KLExpansion(np.linspace(0, 1, 2 * n + 1), decay_rate=1.5, normalizer=2.0, num_modes=n)
+    from cuqiverif.core import MachineryError
+    raise MachineryError("unknown expansion geometry %r" % kind)
+
+
+def _expansion_maps(case, kind, n):
+    """(geometry, E, R): E = matrix of the geometry's own par2fun read off the untouched object, R = a left inverse (R E = I)"""
+    from cuqiverif import families_common as fc
+    from cuqiverif.core import MachineryError
+    with fc.quiet():
+        geom = _expansion_geometry(kind, n)
+        probe = _expansion_geometry(kind, n)          # E is read off an object the model under test never sees
+        E = np.column_stack([np.asarray(probe.par2fun(e), dtype=float).ravel() for e in np.eye(n)])
+    if kind == "step":
+        Es, Rs = fc.mat(case["expansion"]["stepE"]), fc.mat(case["expansion"]["stepR"])
+        if E.shape == Es.shape and np.array_equal(E, Es):
+            R = Rs                                     # the rational left inverse of the spec
+        else:
+            R = np.linalg.pinv(E)                      # (the node -> step assignment itself is C13's subject)
+    else:
+        R = np.linalg.pinv(E)
+    if E.shape[1] != n or not np.allclose(R @ E, np.eye(n), rtol=0, atol=1e-12):
+        raise MachineryError("expansion geometry %s(%d): par2fun is not an injective linear map of %d parameters" % (kind, n, n))
+    return geom, E, R
 
 
 def _noise_kw(case, idx):
@@ -316,7 +387,12 @@ def _noise_kw(case, idx):
     return {name: val}, tag
 
 
-def check_lik(ctx, case, idx):
+def check_lik(ctx, case, idx, dom=None):
+    """likelihood / posterior / multiple-likelihood posterior of one `lik` case.
+    dom = None: the model of the case on its plain (int / matrix-inferred / gradient-supplying) domain geometry: the gradient IS
+    the spec's vector.  dom = "step" | "kl_full" | "kl_trunc": the same parameter-to-output map through a model on an expansion
+    geometry (spec: ModelDomOutcome = RefusedOrChain): the log-densities are the spec's, the gradient is refused or it is
+    ChainGrad(E, gradient_fun) = E^T R^T (spec vector) with E read off an untouched geometry object."""
     import cuqi
     from cuqiverif import families_common as fc
     n, mk = case["dim"], case["mk"]
@@ -324,7 +400,17 @@ def check_lik(ctx, case, idx):
     logy = fc.vec(case["logy"])
     lognormal = case["fam"] == "LikLognormal"
     lam = fc.vec(case["lam"])
-    model = _model(case)
+    if dom is None:
+        model, model2 = _model(case), None
+        outcome, gtag = "Value", ""
+        chain = lambda g: g                                     # noqa: E731
+        ltol = 1e-10
+    else:
+        geom, E, R = _expansion_maps(case, dom, n)
+        model, model2 = _model(case, geom, R), _jac_model(case, geom, R)
+        outcome, gtag = "Refused", "/domgeom=" + dom            # judge(): refused, or the vector below
+        chain = lambda g: E.T @ (R.T @ g)                       # noqa: E731   ChainGrad(E, gradient_fun), gradient_fun = R^T g
+        ltol = 1e-9
     if lognormal:
         data = np.exp(logy)
         ntag = "cov:matrix"
@@ -333,25 +419,30 @@ def check_lik(ctx, case, idx):
         data = logy
         kw, ntag = _noise_kw(case, idx)
         mkdist = lambda name=None: cuqi.distribution.Gaussian(model, **kw, **({"name": name} if name else {}))   # noqa: E731
-    base = "%s/model=%s/noise=%s/dim=%d" % (case["fam"], mk, ntag, n)
+    base = "%s/model=%s/noise=%s/dim=%d%s" % (case["fam"], mk, ntag, n, gtag)
     st, lik, _ = fc.call(lambda: mkdist().to_likelihood(np.array(data)))
     if st == "raise":
+        if dom is not None:
+            _obs(ctx, "construction_failed", "lik%s/%s" % (gtag, mk))
+            return
         ctx.mismatch("construct/" + base, case, "likelihood cannot be built: %r" % (lik,))
         return
     cid = fc.case_id(case)
     # the same object's log-density
     ell = fc.sl_float(case["loglik"])
     r = fc.call(lambda: lik.logd(np.array(x)))
-    ctx.case(("loglik", cid), facet="likelihood_logd")
+    ctx.case(("loglik", cid, gtag), facet="likelihood_logd" + ("_expansion" if dom else ""))
     got = fc.scalar_of(r[1]) if r[0] == "value" else None
-    if got is None or not fc.close(got, ell, 1e-10, 1e-10):
+    if got is None or not fc.close(got, ell, ltol, ltol):
         ctx.mismatch("logd/" + base, case, "log-likelihood is not the log-density of the data distribution at F(x)", ell,
                      r[1] if r[0] == "value" else repr(r[1]))
-    gl = fc.vec(case["gradlik"])
-    ctx.case(("gradlik", cid), facet="likelihood_gradient")
-    judge(ctx, case, "gradient/" + base, "Value", fc.call(lambda: lik.gradient(np.array(x))), gl, n, tag="lik/" + mk)
+    gl = chain(fc.vec(case["gradlik"]))
+    ctx.case(("gradlik", cid, gtag), facet="likelihood_gradient" + ("_expansion" if dom else ""))
+    judge(ctx, case, "gradient/" + base, outcome, fc.call(lambda: lik.gradient(np.array(x))), gl, n, tag="lik%s/%s" % (gtag, mk))
     pr = case["prior"]
     if pr["kind"] == "none":
+        if dom is not None:
+            return
         # FD on the likelihood itself
         st2, _, _ = fc.call(lambda: lik.enable_FD())
         if st2 == "value":
@@ -370,30 +461,35 @@ def check_lik(ctx, case, idx):
     pbase = "%s/prior=%s" % (base, pr["kind"])
     st, post, _ = fc.call(lambda: cuqi.distribution.Posterior(lik_fresh(mkdist, data), mkprior()))
     if st == "raise":
+        if dom is not None:
+            _obs(ctx, "construction_failed", "posterior%s/%s" % (gtag, mk))
+            return
         ctx.mismatch("construct/posterior/" + pbase, case, "posterior cannot be built: %r" % (post,))
         return
     lp = fc.sl_float(case["logpost"])
-    gp = fc.vec(case["gradpost"])
+    gp = chain(fc.vec(case["gradpost"]))
     r = fc.call(lambda: post.logd(np.array(x)))
-    ctx.case(("logpost", cid), facet="posterior_logd")
+    ctx.case(("logpost", cid, gtag), facet="posterior_logd" + ("_expansion" if dom else ""))
     got = fc.scalar_of(r[1]) if r[0] == "value" else None
-    if got is None or not fc.close(got, lp, 1e-10, 1e-10):
+    if got is None or not fc.close(got, lp, ltol, ltol):
         ctx.mismatch("logd/posterior/" + pbase, case, "posterior logd is not log-likelihood + log-prior", lp,
                      r[1] if r[0] == "value" else repr(r[1]))
-    ctx.case(("gradpost", cid), facet="posterior_gradient")
-    judge(ctx, case, "gradient/posterior/" + pbase, "Value", fc.call(lambda: post.gradient(np.array(x))), gp, n, tag="posterior/" + mk)
-    st2, _, _ = fc.call(lambda: post.enable_FD())
-    if st2 == "value":
-        ctx.case(("gradpostFD", cid), facet="posterior_gradient_fd")
-        judge(ctx, case, "gradientFD/posterior/" + pbase, "ValueFD", fc.call(lambda: post.gradient(np.array(x))), gp, n, fd=True,
-              logf=lp, tag="posterior/%s/FD" % mk)
+    ctx.case(("gradpost", cid, gtag), facet="posterior_gradient" + ("_expansion" if dom else ""))
+    judge(ctx, case, "gradient/posterior/" + pbase, outcome, fc.call(lambda: post.gradient(np.array(x))), gp, n,
+          tag="posterior%s/%s" % (gtag, mk))
+    if dom is None:
+        st2, _, _ = fc.call(lambda: post.enable_FD())
+        if st2 == "value":
+            ctx.case(("gradpostFD", cid), facet="posterior_gradient_fd")
+            judge(ctx, case, "gradientFD/posterior/" + pbase, "ValueFD", fc.call(lambda: post.gradient(np.array(x))), gp, n, fd=True,
+                  logf=lp, tag="posterior/%s/FD" % mk)
     # posterior with two likelihoods (second: Jacobian model, unit noise, data y2)
     if lognormal or mk not in ("matrix", "jacobian", "geomgrad"):
         return
     y2 = fc.vec(case["y2"])
 
     def mkmulti():
-        m2 = _jac_model(case) if mk != "geomgrad" else None
+        m2 = (model2 if dom is not None else _jac_model(case)) if mk != "geomgrad" else None
         xx = mkprior("x")
         y1 = mkdist("y1")
         if m2 is None:
@@ -402,20 +498,23 @@ def check_lik(ctx, case, idx):
         return cuqi.distribution.JointDistribution(xx, y1, yy2)(y1=np.array(data), y2=np.array(y2))
     st, mp, _ = fc.call(mkmulti)
     if st == "raise":
+        if dom is not None:
+            _obs(ctx, "construction_failed", "multi%s/%s" % (gtag, mk))
+            return
         ctx.mismatch("construct/multi/" + pbase, case, "multiple-likelihood posterior cannot be built: %r" % (mp,))
         return
     if mp is None:
         return
     lm = lp + fc.sl_float(case["loglik2"])
-    gm = gp + fc.vec(case["gradlik2"])
+    gm = gp + chain(fc.vec(case["gradlik2"]))
     r = fc.call(lambda: mp.logd(np.array(x)))
-    ctx.case(("logmulti", cid), facet="multi_logd")
+    ctx.case(("logmulti", cid, gtag), facet="multi_logd" + ("_expansion" if dom else ""))
     got = fc.scalar_of(r[1]) if r[0] == "value" else None
-    if got is None or not fc.close(got, lm, 1e-10, 1e-10):
+    if got is None or not fc.close(got, lm, ltol, ltol):
         ctx.mismatch("logd/multi/" + pbase, case, "multiple-likelihood posterior logd is not the sum of its densities", lm,
                      r[1] if r[0] == "value" else repr(r[1]))
-    ctx.case(("gradmulti", cid), facet="multi_gradient")
-    judge(ctx, case, "gradient/multi/" + pbase, "Value", fc.call(lambda: mp.gradient(np.array(x))), gm, n, tag="multi/" + mk)
+    ctx.case(("gradmulti", cid, gtag), facet="multi_gradient" + ("_expansion" if dom else ""))
+    judge(ctx, case, "gradient/multi/" + pbase, outcome, fc.call(lambda: mp.gradient(np.array(x))), gm, n, tag="multi%s/%s" % (gtag, mk))
 
 
 def lik_fresh(mkdist, data):
@@ -438,7 +537,11 @@ def dispatch(ctx, table, case, extras=True, idx=0):
     kind, fam = case.get("kind"), case.get("fam")
     if kind == "lik":
         k = case["cfg"]
-        check_lik(ctx, case, k["a"] + k["b"] + k["g"] + k["x"] + k["o"])     # noise form chosen deterministically per case
+        nidx = k["a"] + k["b"] + k["g"] + k["x"] + k["o"]                     # noise form chosen deterministically per case
+        check_lik(ctx, case, nidx)
+        # the same likelihood / posterior through models on expansion geometries (subclasses of an identity-like geometry)
+        for dom in (case.get("expansion") or {}).get("geoms", []):
+            check_lik(ctx, case, nidx + 1, dom=dom)
     elif kind == "gaussbig":
         check_gaussbig(ctx, table, case)
     elif kind == "family" and fam == "Gaussian":
